@@ -133,6 +133,10 @@ def scenarios(tier):
     S.append({'id': 'seen-before-registered-elsewhere-prefix', 'init': True, 'setup': [('register_function', 'gfw', wait_handler('R'))],
               'threads': [[('execute', '+++ 1'), ('execute', 'gfw ( 1 )'), ('execute', '+++ 1')], [('register_prefix', '+++', T('PPP')), ('set_flag', 'R')]],
               'probe': [('execute', '+++ 1')]})
+    S.append({'id': 'called-before-reregistered-elsewhere-function', 'init': True,
+              'setup': [('register_function', 'f', T('F1')), ('register_prefix', '+++', wait_handler('R'))],
+              'threads': [[('execute', 'f ( )'), ('execute', '+++ 1'), ('execute', 'f ( )')], [('register_function', 'f', T('F2')), ('set_flag', 'R')]],
+              'probe': [('execute', 'f ( )')]})
     # an operator looked up while an operand that looks up the same registry is being evaluated, racing with a registration
     # in that registry (reader-writer locks that prefer writers deadlock on the nested read)
     S.append({'id': 'nested-postfix-vs-register-postfix', 'init': True, 'setup': [],
